@@ -36,7 +36,23 @@ BUILTIN = {
 }
 
 
+# std::unique_ptr<T> is lowered to a raw `T *` (ownership and destructors are dropped, DESIGN.md 3.1)
+DEFAULT_TYPE_PATTERNS = [
+    (r'unique_ptr<(.*?)(, default_delete<.*>)?>', r'@\1 *'),
+]
+DEFAULT_CALL_PATTERNS = [
+    (r'o:->:unique_ptr<.*>', '(*$o)'),
+    (r'o:\*:unique_ptr<.*>', '(**$o)'),
+    (r'm:unique_ptr<.*>::get', '(*$o)'),
+    (r'm:unique_ptr<.*>::operator bool', '(*$o != 0)'),
+    (r'c:unique_ptr<.*>\(pointer\)', '$0'),
+    (r'c:unique_ptr<.*>\(.*nullptr_t.*\)', '0'),
+    (r'c:unique_ptr<.*>/0', '0'),
+]
+
+
 def norm(q):
+    q = q.replace('(anonymous namespace)::', '')
     q = NS_STRIP.sub('', q)
     q = NS_STRIP.sub('', q)
     return q.strip()
@@ -251,7 +267,7 @@ class Translator:
             return self.types[q]
         if q in BUILTIN:
             return BUILTIN[q]
-        for pat, rep in self.u.get('type_patterns', []):
+        for pat, rep in list(self.u.get('type_patterns', [])) + DEFAULT_TYPE_PATTERNS:
             m = re.fullmatch(pat, q)
             if m:
                 r = m.expand(rep) if isinstance(rep, str) else rep(self, m)
@@ -412,7 +428,7 @@ class Translator:
             if k in self.calls:
                 return self.calls[k]
         for k in keys:
-            for pat, b in self.u.get('call_patterns', []):
+            for pat, b in list(self.u.get('call_patterns', [])) + DEFAULT_CALL_PATTERNS:
                 if re.fullmatch(pat, k):
                     return b
         return None
@@ -902,7 +918,12 @@ class Translator:
             ft = self.ntype(n)
             if (bcls + '::' + n['name']) in self.u.get('ref_fields', []):
                 ft.ref = True
-        sname = self.add_field(bcls, n['name'], ft)
+        try:
+            bt = self.ntype(base)
+            owner = bt.base[7:] if bt.base.startswith('struct ') else bcls
+        except Unsupported:
+            owner = bcls
+        sname = self.add_field(owner, n['name'], ft)
         if sname is None or not sname.startswith('struct '):
             raise Unsupported('member %s of non-struct %s (%s)' % (n['name'], bcls, sname))
         acc = ('%s->%s' % (btext, n['name'])) if n.get('isArrow') else ('%s.%s' % (btext, n['name']))
@@ -1009,6 +1030,8 @@ class Translator:
         if t.base.startswith('struct ') and t.ptr == 0:
             # positional initialisation: needs the record's field order
             fields = self.record_fields(t)
+            if fields is None and n.get('type', {}).get('desugaredQualType'):
+                fields = self.record_fields(CT(t.base, cxx=norm(n['type']['desugaredQualType'])))
             if fields is None or len(fields) < len(items):
                 raise Unsupported('init list for %s without known field order' % t.base)
             parts = []
@@ -1034,12 +1057,15 @@ class Translator:
     # ---- calls
     def lower_args(self, args, sig=None, ptypes=None):
         out = []
+        callee = self.cur_callee      # nested calls in the arguments overwrite it
         for i, a in enumerate(args):
+            if sig and i >= len(sig):
+                break           # the model takes only the leading arguments (trailing defaulted ones dropped)
             if a.get('kind') == 'CXXDefaultArgExpr':
                 if a.get('inner'):
                     a = a['inner'][0]
                 else:
-                    continue
+                    a = self.default_arg(i, callee)
             mode = sig[i] if sig and i < len(sig) else None
             text = self.expr(a)
             core = self.skip_wrappers(a)
@@ -1062,21 +1088,57 @@ class Translator:
                         out.append(text)
                     else:
                         out.append(self.addr(text))
+                elif core.get('kind') == 'MaterializeTemporaryExpr':
+                    t = self.ntype(core)
+                    if t.ptr == 0 and (t.base.startswith('struct ') or t.base in self.u.get('by_pointer', [])) and not self.is_byval(CT(t.base, cxx=t.cxx)):
+                        out.append(self.temp_addr(core, text))     # a temporary bound to a reference parameter
+                    else:
+                        out.append(text)
                 else:
                     out.append(text)
         return out
+
+    cur_callee = None   # (class-qualified name or function name, number of arguments) of the call being lowered
+
+    def default_arg(self, i, callee=None):
+        """clang's JSON omits the expression of a CXXDefaultArgExpr: take it from the callee's declaration."""
+        callee = callee or self.cur_callee
+        if not callee:
+            raise Unsupported('default argument of an unknown callee')
+        qual, nargs = callee
+        cands = []
+        for attempt in (0, 1):
+            for q, lst in self.byname.items():
+                if q == qual or q.endswith('::' + qual):
+                    for d in lst:
+                        if d['kind'] in ('FunctionDecl', 'CXXMethodDecl', 'CXXConstructorDecl') and len(self.params_of(d)) == nargs:
+                            cands.append(d)
+            if cands or attempt:
+                break
+            try:
+                self.load('::'.join(qual.split('::')[-2:]))
+            except astdump.ExtractionError:
+                pass
+        for d in cands:
+            if i >= len(self.params_of(d)):
+                continue
+            p = self.params_of(d)[i]
+            if 'init' in p and p.get('inner'):
+                return p['inner'][-1]
+        raise Unsupported('default argument %d of %s not found' % (i, qual))
 
     def temp_addr(self, a, text):
         t = self.ntype(a)
         return '&((%s){%s}[0])' % (CT(t.base, t.ptr).c().strip() + '[1]', text)
 
     def apply_binding(self, b, n, obj, args, argnodes):
-        if callable(b):
-            return b(self, n, obj, args, argnodes)
         sig = None
         if isinstance(b, tuple):
             b, sig = b
+        if args is None:
             args = self.lower_args(argnodes, sig)
+        if callable(b):
+            return b(self, n, obj, args, argnodes)
         if '$' in b:
             t = b.replace('$o', '(%s)' % obj if obj else '')
             for i, a in enumerate(args):
@@ -1099,9 +1161,10 @@ class Translator:
         if callee.get('kind') == 'DeclRefExpr':
             r = callee['referencedDecl']
             name = r['name']
+            self.cur_callee = (name, len(argnodes))
             b = self.lookup_binding(['fn:' + name])
             if b is not None:
-                return self.apply_binding(b, n, None, self.lower_args(argnodes), argnodes)
+                return self.apply_binding(b, n, None, None, argnodes)
             # a /repo function we can translate?
             d = self.resolve_function(r, name)
             if d is not None:
@@ -1110,7 +1173,7 @@ class Translator:
                 return self.wrapref(n, '%s(%s)' % (cn, ', '.join(self.lower_args(argnodes, None, pts))))
             ptypes = self.proto_param_types(r.get('type', {}).get('qualType', ''))
             self.externs.setdefault(name, r.get('type', {}).get('qualType', ''))
-            return '%s(%s)' % (name, ', '.join(self.lower_args(argnodes, None, ptypes)))
+            return self.wrapref(n, '%s(%s)' % (name, ', '.join(self.lower_args(argnodes, None, ptypes))))
         if callee.get('kind') == 'MemberExpr' and self.qt(callee) != '<bound member function type>':
             # call through a function-pointer field
             return '%s(%s)' % (self.expr(callee), ', '.join(self.lower_args(argnodes)))
@@ -1169,6 +1232,10 @@ class Translator:
         d = self.objtype_desugared(objnode)
         if d:
             keys.append('m:%s::%s' % (d, name))
+        try:                      # keyed by the lowered (model) type, whatever the C++ spelling / typedef
+            keys.append('m:@%s::%s' % (self.ntype(objnode).base, name))
+        except Unsupported:
+            pass
         keys.append('m:*::%s' % name)
         return keys
 
@@ -1180,6 +1247,7 @@ class Translator:
             raise Unsupported('member call through %s' % me.get('kind'))
         objn = me['inner'][0]
         name = me['name']
+        self.cur_callee = ('%s::%s' % (self.objtype(objn).split('<')[0], name), len(argnodes))
         # peel derived-to-base conversions: a binding may be keyed on any level
         levels = [objn]
         while levels[-1].get('kind') == 'ImplicitCastExpr' and levels[-1].get('castKind') in ('DerivedToBase', 'UncheckedDerivedToBase', 'NoOp'):
@@ -1190,7 +1258,7 @@ class Translator:
             if b is not None:
                 otext = self.expr(lv)
                 obj = otext if me.get('isArrow') else self.addr(otext)
-                return self.apply_binding(b, n, obj, self.lower_args(argnodes), argnodes)
+                return self.apply_binding(b, n, obj, None, argnodes)
         otext = self.expr(objn)
         obj = otext if me.get('isArrow') else self.addr(otext)
         # a /repo method we can translate?
@@ -1203,10 +1271,11 @@ class Translator:
             return self.wrapref(n, '%s(%s)' % (cn, ', '.join(['(%s)%s' % (ot, obj)] + self.lower_args(argnodes, None, pts))))
         b = self.lookup_binding(['m:*::%s' % name])
         if b is not None:
-            return self.apply_binding(b, n, obj, self.lower_args(argnodes), argnodes)
-        cn = cident(self.objtype(objn).split('<')[0]) + '_' + cident(name.replace('operator', 'op'))
+            return self.apply_binding(b, n, obj, None, argnodes)
+        ocls = self.objtype_desugared(objn) or self.objtype(objn)
+        cn = cident(ocls.split('<')[0]) + '_' + cident(name.replace('operator', 'op'))
         self.externs.setdefault(cn, 'method %s::%s' % (self.objtype(objn), name))
-        return '%s(%s)' % (cn, ', '.join([obj] + self.lower_args(argnodes)))
+        return self.wrapref(n, '%s(%s)' % (cn, ', '.join([obj] + self.lower_args(argnodes))))
 
     def resolve_method(self, me, objn, name, nargs):
         mid = me.get('referencedMemberDecl')
@@ -1267,7 +1336,7 @@ class Translator:
         if b is not None:
             obj = self.expr(a0)
             obj = self.addr(obj) if self.is_glvalue(self.skip_wrappers(a0)) else obj
-            return self.apply_binding(b, n, obj, self.lower_args(argnodes[1:]), argnodes[1:])
+            return self.apply_binding(b, n, obj, None, argnodes[1:])
         # translate a /repo operator
         r = callee['referencedDecl']
         d = self.decls.get(r['id'])
@@ -1303,12 +1372,13 @@ class Translator:
         ctor = re.sub(r'\s*noexcept(\(.*\))?$', '', norm(n.get('ctorType', {}).get('qualType', '')))
         m = re.match(r'void \((.*)\)', ctor)
         ptxt = m.group(1) if m else ''
+        self.cur_callee = ('%s::%s' % (t.split('<')[0], t.split('<')[0].split('::')[-1]), len(argnodes))
         keys = ['c:%s(%s)' % (t, ptxt), 'c:%s/%d' % (t, len(argnodes))]
         if td:
             keys += ['c:%s(%s)' % (td, ptxt), 'c:%s/%d' % (td, len(argnodes))]
         b = self.lookup_binding(keys)
         if b is not None:
-            return self.apply_binding(b, n, None, self.lower_args(argnodes), argnodes)
+            return self.apply_binding(b, n, None, None, argnodes)
         # copy / move construction of a value type: the C value itself
         if len(argnodes) == 1:
             a = argnodes[0]
